@@ -187,7 +187,66 @@ def grammar_part(prog, R):
         R.info["contains_guarded"] = bool(guarded)
     else:
         R.ob("ANCHOR", "TokenSet::contains", False)
+    is_joint_guard(prog, R)
     return G
+
+
+def is_joint_guard(prog, R, rule="C01.6-is_joint-guarded"):
+    """`Input::is_joint(n)` indexes the jointness bit vector without a bounds check: it is in range only for
+    n < number of tokens.  Rule: every call `is_joint(inp, A)` is control-dependent (on all paths) on
+    `inp.kind(A) == K` being true for a kind K that is never EOF (kind() answers EOF beyond the end), K being a
+    constant or a parameter for which every caller passes a non-EOF constant."""
+    from sym import SymExec, show, deep_strip, must_conds
+    n = 0
+    for b in prog.by_crate["oq3_parser"]:
+        cs = [(bi, t) for bi, t in b.calls() if (b.callee_of(t) or "").endswith("Input::is_joint")]
+        if not cs:
+            continue
+        ps = SymExec(prog, b).paths()
+        for o, (bi, t) in enumerate(cs):
+            n += 1
+            key = f"{short(b.npath)}:{o}"
+            argterm = None
+            for p in ps:
+                for name, args, bb in p.calls:
+                    if bb == bi and name.endswith("Input::is_joint"):
+                        argterm = deep_strip(args[1])
+            mc = must_conds(ps, bi)
+            if argterm is None or mc is None:
+                R.ob(rule, key, False, t["at"], "call not reached by the path enumeration")
+                continue
+            guards = []
+            for term, c in mc:
+                if not (isinstance(term, tuple) and term[0] in ("call", "pure") and term[1].endswith("SyntaxKind as std::cmp::PartialEq>::eq")):
+                    continue
+                if not (c == ("ne", (0,)) or c == ("eq", 1)):
+                    continue
+                a0, a1 = term[2]
+                for x, k in ((a0, a1), (a1, a0)):
+                    if isinstance(x, tuple) and x[0] == "call" and x[1].endswith("Input::kind") and deep_strip(x[2][1]) == argterm:
+                        guards.append(k)
+            if not guards:
+                R.ob(rule, key, False, t["at"], f"is_joint({show(argterm)}) is not guarded by a successful `kind({show(argterm)}) == K` on every path: for the position one past the last token the bit vector has no word when the token count is a multiple of 64 (index out of bounds)")
+                continue
+            okk, why = False, ""
+            for k in guards:
+                k = deep_strip(k)
+                if isinstance(k, tuple) and k[0] == "arg":
+                    # every caller passes a constant kind other than EOF
+                    vals = set()
+                    for cb in prog.by_crate["oq3_parser"]:
+                        for _, ct in cb.calls():
+                            if norm(cb.callee_of(ct) or "") == b.npath:
+                                for og in origins(prog, cb, ct["args"][k[1] - 1], max_depth=3):
+                                    vals.add(og[2] if og[0] == "agg" and og[1].endswith("SyntaxKind") else "?" + str(og)[:30])
+                    if vals and "EOF" not in vals and not any(v.startswith("?") for v in vals):
+                        okk, why = True, f"K = parameter `{k[2]}`, callers pass {len(vals)} constant kinds, none EOF"
+                    else:
+                        why = f"K = parameter `{k[2]}` but callers pass {sorted(vals)[:4]}"
+                elif isinstance(k, tuple) and k[0] in ("adt", "c", "agg") and "EOF" not in show(k):
+                    okk, why = True, f"K = {show(k)}"
+            R.ob(rule, key, okk, t["at"], why)
+    R.floor("is_joint call sites", n, 3)
 
 
 def run(prog, R):
